@@ -300,7 +300,8 @@ class ManifestContext:
             flask.abort(404, 'no video representations are available for this request')
         if timing:
             opts.availabilityStartTime = timing.availabilityStartTime
-            opts.timeShiftBufferDepth = timing.timeShiftBufferDepth
+            # (the requested timeShiftBufferDepth is kept: a young stream
+            # clamps it for now, and every later request clamps it again)
             self.update_timing(timing)
 
         self.cgi_params = self.calculate_cgi_parameters(
@@ -528,7 +529,7 @@ class ManifestContext:
                 options.videoErrors,
                 self.now,
                 options.availabilityStartTime,
-                options.timeShiftBufferDepth,
+                self.window_depth(),
                 video.representations[0])
             vid_cgi_params['verr'] = times
 
@@ -538,7 +539,7 @@ class ManifestContext:
                     options.audioErrors,
                     self.now,
                     options.availabilityStartTime,
-                    options.timeShiftBufferDepth,
+                    self.window_depth(),
                     audio[0].representations[0])
                 aud_cgi_params['aerr'] = times
 
@@ -548,7 +549,7 @@ class ManifestContext:
                 errs,
                 self.now,
                 options.availabilityStartTime,
-                options.timeShiftBufferDepth,
+                self.window_depth(),
                 video.representations[0])
             vid_cgi_params['vcorrupt'] = segs
 
@@ -562,6 +563,13 @@ class ManifestContext:
             manifest=mft_cgi_params,
             patch=patch_cgi_params,
             time=clk_cgi_params)
+
+    def window_depth(self) -> int:
+        """
+        The timeShiftBufferDepth (in seconds) of this manifest. A static
+        manifest does not have one
+        """
+        return getattr(self, 'timeShiftBufferDepth', None) or 0
 
     def with_injected_errors(
             self,
@@ -580,7 +588,7 @@ class ManifestContext:
             errors,
             self.now,
             self.options.availabilityStartTime,
-            self.options.timeShiftBufferDepth,
+            self.window_depth(),
             adp.representations[0])
         return params
 
